@@ -536,3 +536,677 @@ Proof.
       * intros [m Hm]. right. exists m. rewrite Hbits, wbit_expand in Hm.
         destruct (in_range nb len m); [|congruence]. split; auto. rewrite wbit_expand. congruence.
 Qed.
+
+(* ------------------------------------------------------------------ copy / equal / intersect / empty *)
+Theorem copy_spec dst src : copy dst src = src.
+Proof.
+  unfold copy. rewrite firstn_all.
+  assert (H : length (if (length src <=? length dst)%nat then firstn (length src) dst
+                      else expand dst (N.of_nat (length src) * 64)) = length src).
+  { destruct (Nat.leb_spec (length src) (length dst)) as [H|H].
+    - rewrite firstn_length. lia.
+    - rewrite expand_length. unfold words_for.
+      replace ((N.of_nat (length src) * 64 + 63) / 64) with (N.of_nat (length src)).
+      + lia.
+      + apply (N.div_unique _ 64 _ 63); lia. }
+  rewrite skipn_all2 by lia. apply app_nil_r.
+Qed.
+
+Lemma words_eqb_spec a b : words_eqb a b = true <-> a = b.
+Proof.
+  revert b; induction a as [|x a IH]; intros [|y b]; simpl; split; intros H; auto; try discriminate.
+  - apply andb_true_iff in H. destruct H as [H1 H2]. apply N.eqb_eq in H1. apply IH in H2. congruence.
+  - inversion H; subst. rewrite N.eqb_refl. simpl. apply IH. reflexivity.
+Qed.
+
+Lemma nth_firstn_skipn_eq (a b : list N) : (length a <= length b)%nat ->
+  ((forall i, nth i a 0 = nth i b 0) <-> a = firstn (length a) b /\ Forall (fun w => w = 0) (skipn (length a) b)).
+Proof.
+  revert b; induction a as [|x a IH]; intros b Hlen.
+  - simpl. split.
+    + intros H. split; auto. apply Forall_forall. intros w Hw.
+      apply In_nth with (d := 0) in Hw. destruct Hw as [i [_ Hi]]. rewrite <- Hi, <- H. destruct i; reflexivity.
+    + intros [_ H] i. rewrite Forall_forall in H.
+      destruct (Nat.ltb_spec i (length b)) as [Hi|Hi].
+      * rewrite (H (nth i b 0)) by (apply nth_In; auto). destruct i; reflexivity.
+      * rewrite nth_overflow by auto. destruct i; reflexivity.
+  - destruct b as [|y b]; simpl in Hlen; [lia|]. simpl. split.
+    + intros H. pose proof (H O) as H0. simpl in H0. subst y.
+      destruct (proj1 (IH b ltac:(lia))) as [E1 E2].
+      * intros i. apply (H (S i)).
+      * split; auto. f_equal. exact E1.
+    + intros [E1 E2] [|i]; simpl.
+      * congruence.
+      * apply (proj2 (IH b ltac:(lia))). split; auto. congruence.
+Qed.
+
+Lemma equal_p_words a b : equal_p a b = true <-> forall i, nth i a 0 = nth i b 0.
+Proof.
+  assert (Hcore : forall a b : list N, (length a <= length b)%nat ->
+            ((if words_eqb a (firstn (length a) b) then forallb (fun w => w =? 0) (skipn (length a) b) else false) = true
+             <-> forall i, nth i a 0 = nth i b 0)).
+  { intros a0 b0 Hl. rewrite (nth_firstn_skipn_eq a0 b0 Hl). split.
+    - intros H. destruct (words_eqb a0 (firstn (length a0) b0)) eqn:E; [|discriminate].
+      apply words_eqb_spec in E. split; auto. rewrite forallb_forall in H. apply Forall_forall.
+      intros w Hw. apply N.eqb_eq. apply H; auto.
+    - intros [E1 E2]. apply words_eqb_spec in E1. rewrite E1. apply forallb_forall.
+      rewrite Forall_forall in E2. intros w Hw. apply N.eqb_eq. apply E2; auto. }
+  unfold equal_p. destruct (Nat.ltb_spec (length b) (length a)) as [H|H].
+  - rewrite (Hcore b a) by lia. split; intros H1 i; symmetry; apply H1.
+  - apply Hcore. lia.
+Qed.
+
+Theorem equal_p_spec a b : wfb a -> wfb b -> (equal_p a b = true <-> same_set a b).
+Proof. intros Ha Hb. rewrite equal_p_words. symmetry. apply same_set_words; auto. Qed.
+
+Lemma combine_nth_lt {A B} (a : list A) (b : list B) i x y :
+  (i < length a)%nat -> (i < length b)%nat -> nth i (combine a b) (x, y) = (nth i a x, nth i b y).
+Proof.
+  revert b i; induction a as [|h t IH]; intros [|h' t'] [|i] Ha Hb; simpl in *; try lia; auto.
+  apply IH; lia.
+Qed.
+
+Theorem intersect_p_spec a b : wfb a -> wfb b ->
+  (intersect_p a b = true <-> exists n, wbit a n = true /\ wbit b n = true).
+Proof.
+  intros Ha Hb. unfold intersect_p. rewrite existsb_exists. split.
+  - intros [[x y] [Hin Hnz]]. simpl in Hnz. apply nz_bits in Hnz. destruct Hnz as [j Hj].
+    rewrite N.land_spec in Hj. apply andb_true_iff in Hj. destruct Hj as [Hx Hy].
+    apply In_nth with (d := (0, 0)) in Hin. destruct Hin as [i [Hi Hnth]].
+    rewrite combine_length in Hi.
+    rewrite combine_nth_lt in Hnth by lia. inversion Hnth; subst.
+    assert (Hj64 : j < 64).
+    { destruct (N.lt_ge_cases j 64) as [|Hge]; auto.
+      rewrite (lt_pow2_bits _ 64 (wfb_nth a i Ha)) in Hx by auto. discriminate. }
+    exists (N.of_nat i * 64 + j). unfold wbit. destruct (nm_decomp i j Hj64) as [E1 E2].
+    rewrite E1, E2. auto.
+  - intros [n [H1 H2]]. unfold wbit in *.
+    assert (Hia : (wordix n < length a)%nat).
+    { destruct (Nat.ltb_spec (wordix n) (length a)); auto. rewrite nth_overflow in H1 by auto.
+      rewrite N.bits_0 in H1. discriminate. }
+    assert (Hib : (wordix n < length b)%nat).
+    { destruct (Nat.ltb_spec (wordix n) (length b)); auto. rewrite nth_overflow in H2 by auto.
+      rewrite N.bits_0 in H2. discriminate. }
+    exists (nth (wordix n) a 0, nth (wordix n) b 0). split.
+    + rewrite <- combine_nth_lt by auto. apply nth_In. rewrite combine_length. lia.
+    + simpl. apply nz_bits. exists (n mod 64). rewrite N.land_spec, H1, H2. reflexivity.
+Qed.
+
+Theorem empty_p_spec a : wfb a -> (empty_p a = true <-> forall n, wbit a n = false).
+Proof.
+  intros Ha. unfold empty_p. rewrite forallb_forall. split.
+  - intros H n. unfold wbit. destruct (Nat.ltb_spec (wordix n) (length a)) as [Hi|Hi].
+    + rewrite (proj1 (N.eqb_eq _ _) (H _ (nth_In a 0 Hi))). apply N.bits_0.
+    + rewrite nth_overflow by auto. apply N.bits_0.
+  - intros H w Hw. apply N.eqb_eq. apply In_nth with (d := 0) in Hw. destruct Hw as [i [Hi Hnth]].
+    subst w. apply word_ext; [apply wfb_nth; auto|reflexivity|].
+    intros j Hj. rewrite N.bits_0. specialize (H (N.of_nat i * 64 + j)). unfold wbit in H.
+    destruct (nm_decomp i j Hj) as [E1 E2]. rewrite E1, E2 in H. exact H.
+Qed.
+
+(* ------------------------------------------------------------------ op2 / op3 on the store *)
+Lemma getb_set_nth st b x b' : (b < length st)%nat ->
+  getb (set_nth st b x) b' = if Nat.eqb b b' then x else getb st b'.
+Proof.
+  intros Hb. unfold getb. rewrite nth_set_nth.
+  destruct (Nat.eqb_spec b b'); auto. destruct (Nat.ltb_spec b (length st)); auto. lia.
+Qed.
+
+Lemma getw_setw st b i v b' j : (b < length st)%nat -> (i < length (getb st b))%nat ->
+  getw (setw st b i v) b' j = if Nat.eqb b b' && Nat.eqb i j then v else getw st b' j.
+Proof.
+  intros Hb Hi. unfold getw, setw. rewrite getb_set_nth by auto.
+  destruct (Nat.eqb_spec b b') as [->|]; simpl; auto.
+  rewrite nth_set_nth. destruct (Nat.eqb_spec i j); auto.
+  destruct (Nat.ltb_spec i (length (getb st b'))); auto. lia.
+Qed.
+
+Definition srcw (st : store) (sl : list (nat * nat)) (j : nat) : list N :=
+  map (fun sl => if Nat.leb (snd sl) j then 0 else getw st (fst sl) j) sl.
+
+Lemma srcw_setw st sl b i v j : (b < length st)%nat -> (i < length (getb st b))%nat -> i <> j ->
+  srcw (setw st b i v) sl j = srcw st sl j.
+Proof.
+  intros Hb Hi Hne. unfold srcw. apply map_ext. intros [s l]. simpl.
+  rewrite getw_setw by auto. destruct (Nat.eqb_spec i j); [contradiction|].
+  rewrite andb_false_r. reflexivity.
+Qed.
+
+Lemma opn_loop_spec f dst sl : forall n i st bound ch st' bound' ch',
+  (dst < length st)%nat -> (i + n <= length (getb st dst))%nat -> (bound <= i)%nat ->
+  opn_loop f dst sl n i st bound ch = (st', bound', ch') ->
+  length st' = length st /\
+  (forall b, b <> dst -> getb st' b = getb st b) /\
+  length (getb st' dst) = length (getb st dst) /\
+  (forall j, getw st' dst j = if Nat.leb i j && Nat.ltb j (i + n) then f (srcw st sl j) else getw st dst j) /\
+  (bound <= bound')%nat /\ (bound' <= i + n)%nat /\
+  (forall j, (bound' <= j)%nat -> (i <= j < i + n)%nat -> f (srcw st sl j) = 0) /\
+  (ch' = true <-> ch = true \/ exists j, (i <= j < i + n)%nat /\ getw st dst j <> f (srcw st sl j)).
+Proof.
+  induction n as [|n IH]; intros i st bound ch st' bound' ch' Hdst Hlen Hbd Hrun.
+  - simpl in Hrun. inversion Hrun; subst; clear Hrun.
+    split; [reflexivity|]. split; [reflexivity|]. split; [reflexivity|]. split.
+    { intros j. destruct (Nat.leb_spec i j), (Nat.ltb_spec j (i + 0)); simpl; auto; lia. }
+    split; [lia|]. split; [lia|]. split.
+    { intros j H1 H2. exfalso. lia. }
+    split; [auto|]. intros [H|[j [H _]]]; [auto|exfalso; lia].
+  - cbn [opn_loop] in Hrun.
+    set (v := f (map (fun sl0 => if Nat.leb (snd sl0) i then 0 else getw st (fst sl0) i) sl)) in *.
+    assert (Hv : v = f (srcw st sl i)) by reflexivity.
+    set (st1 := setw st dst i v) in *.
+    assert (Hi : (i < length (getb st dst))%nat) by lia.
+    assert (Hl1 : length st1 = length st) by (unfold st1, setw; apply set_nth_length).
+    assert (Hg1 : forall b, getb st1 b = if Nat.eqb dst b then set_nth (getb st dst) i v else getb st b).
+    { intros b. unfold st1, setw. apply getb_set_nth; auto. }
+    assert (Hd1 : length (getb st1 dst) = length (getb st dst)).
+    { rewrite Hg1, Nat.eqb_refl. apply set_nth_length. }
+    apply IH in Hrun; [|lia|lia|destruct (v =? 0); lia].
+    destruct Hrun as [R1 [R2 [R3 [R4 [R5 [R6 [R7 R8]]]]]]].
+    split; [lia|]. split.
+    { intros b Hb. rewrite R2 by auto. rewrite Hg1. destruct (Nat.eqb_spec dst b); [congruence|reflexivity]. }
+    split; [lia|]. split.
+    { intros j. rewrite R4. unfold st1 at 2. rewrite getw_setw by auto. rewrite Nat.eqb_refl. cbn [andb].
+      destruct (Nat.eqb_spec i j) as [<-|Hne].
+      - destruct (Nat.leb_spec (S i) i); [lia|]. cbn [andb].
+        destruct (Nat.leb_spec i i); [|lia]. destruct (Nat.ltb_spec i (i + S n)); [|lia]. cbn [andb]. exact Hv.
+      - unfold st1. rewrite srcw_setw by auto.
+        destruct (Nat.leb_spec (S i) j), (Nat.ltb_spec j (S i + n)), (Nat.leb_spec i j), (Nat.ltb_spec j (i + S n));
+          cbn [andb]; auto; lia. }
+    split.
+    { destruct (v =? 0); lia. }
+    split.
+    { destruct (v =? 0); lia. }
+    split.
+    { intros j Hb Hj. destruct (Nat.eq_dec i j) as [<-|Hne].
+      - destruct (N.eqb_spec v 0) as [E|E]; [congruence|]. lia.
+      - rewrite <- (srcw_setw st sl dst i v j) by auto. apply R7; auto. lia. }
+    rewrite R8. rewrite orb_true_iff, negb_true_iff, N.eqb_neq. split.
+    + intros [[H|H]|[j [Hj H]]]; auto.
+      * right. exists i. split; [lia|]. rewrite <- Hv. exact H.
+      * right. exists j. split; [lia|]. unfold st1 in H.
+        rewrite getw_setw, srcw_setw in H by (auto; lia).
+        destruct (Nat.eqb_spec i j); [lia|]. rewrite andb_false_r in H. exact H.
+    + intros [H|[j [Hj H]]]; auto.
+      destruct (Nat.eq_dec i j) as [<-|Hne].
+      * left. right. rewrite Hv. exact H.
+      * right. exists j. split; [lia|]. unfold st1.
+        rewrite getw_setw, srcw_setw by (auto; lia).
+        destruct (Nat.eqb_spec i j); [lia|]. rewrite andb_false_r. exact H.
+Qed.
+
+Record bitwise (f : list N -> N) (fb : list bool -> bool) : Prop := {
+  bw_lt : forall ws, Forall (fun w => w < 2 ^ 64) ws -> f ws < 2 ^ 64;
+  bw_zero : forall ws, Forall (fun w => w = 0) ws -> f ws = 0;
+  bw_bits : forall ws j, Forall (fun w => w < 2 ^ 64) ws -> j < 64 ->
+            N.testbit (f ws) j = fb (map (fun w => N.testbit w j) ws) }.
+
+Lemma nth_firstn_N (l : list N) b j : nth j (firstn b l) 0 = if Nat.ltb j b then nth j l 0 else 0.
+Proof.
+  revert b j; induction l as [|x l IH]; intros [|b] [|j]; simpl; auto.
+  - destruct (Nat.ltb (S j) (S b)); reflexivity.
+  - rewrite IH. reflexivity.
+Qed.
+
+Lemma wfb_of_nth (l : list N) : (forall j, nth j l 0 < 2 ^ 64) -> wfb l.
+Proof.
+  intros H. apply Forall_forall. intros w Hw. apply In_nth with (d := 0) in Hw.
+  destruct Hw as [j [_ <-]]. apply H.
+Qed.
+
+Lemma max_fold_ge (l : list nat) x : In x l -> (x <= fold_right Nat.max O l)%nat.
+Proof. induction l as [|y l IH]; simpl; [intros []|intros [->|H]]; try lia. specialize (IH H). lia. Qed.
+
+Lemma nth_skipn_N (l : list N) k j : nth j (skipn k l) 0 = nth (k + j) l 0.
+Proof.
+  revert l; induction k as [|k IH]; intros l; simpl; auto.
+  destruct l as [|x l]; [destruct j; reflexivity|]. apply IH.
+Qed.
+
+Lemma existsb_skipn_nz (l : list N) k : existsb nz (skipn k l) = true <-> exists j, (k <= j)%nat /\ nth j l 0 <> 0.
+Proof.
+  rewrite existsb_exists. split.
+  - intros [w [Hin Hnz]]. apply nz_true in Hnz. apply In_nth with (d := 0) in Hin.
+    destruct Hin as [j [Hj Hn]]. rewrite nth_skipn_N in Hn. exists (k + j)%nat. split; [lia|congruence].
+  - intros [j [Hj Hnz]]. exists (nth j l 0). split; [|apply nz_true; auto].
+    replace j with (k + (j - k))%nat by lia. rewrite <- nth_skipn_N. apply nth_In.
+    rewrite skipn_length.
+    destruct (Nat.ltb_spec j (length l)); [lia|]. rewrite nth_overflow in Hnz by auto. congruence.
+Qed.
+
+(* the word-level meaning of op2/op3 for EVERY choice of ids (all aliasing patterns) *)
+Theorem opn_words f dst srcs st st' r :
+  (forall ws, Forall (fun w => w < 2 ^ 64) ws -> f ws < 2 ^ 64) ->
+  (forall ws, Forall (fun w => w = 0) ws -> f ws = 0) ->
+  wfs st -> (dst < length st)%nat ->
+  opn true f dst srcs st = (st', r) ->
+  length st' = length st /\
+  (forall b, b <> dst -> getb st' b = getb st b) /\
+  (forall j, nth j (getb st' dst) 0 = f (map (fun s => nth j (getb st s) 0) srcs)) /\
+  wfb (getb st' dst) /\
+  (r = true <-> exists j, nth j (getb st' dst) 0 <> nth j (getb st dst) 0).
+Proof.
+  intros Hflt Hfz Hwf Hdst Hop. unfold opn in Hop.
+  set (sl := map (fun s => (s, length (getb st s))) srcs) in *.
+  set (len := fold_right Nat.max O (map snd sl)) in *.
+  set (D0 := expand (getb st dst) (N.of_nat len * 64)) in *.
+  set (st1 := set_nth st dst D0) in *.
+  destruct (opn_loop f dst sl len O st1 O false) as [[st2 bound] ch] eqn:Hloop.
+  inversion Hop; subst st' r; clear Hop.
+  assert (Hwfb : forall b, wfb (getb st b)).
+  { intros b. unfold getb. destruct (Nat.ltb_spec b (length st)) as [H|H].
+    - unfold wfs in Hwf. rewrite Forall_forall in Hwf. apply Hwf. apply nth_In. auto.
+    - rewrite nth_overflow by auto. constructor. }
+  assert (HD0len : length D0 = Nat.max (length (getb st dst)) len).
+  { unfold D0. rewrite expand_length. unfold words_for.
+    replace ((N.of_nat len * 64 + 63) / 64) with (N.of_nat len); [lia|].
+    apply (N.div_unique _ 64 _ 63); lia. }
+  assert (Hl1 : length st1 = length st) by (unfold st1; apply set_nth_length).
+  assert (Hg1 : forall b, getb st1 b = if Nat.eqb dst b then D0 else getb st b).
+  { intros b. unfold st1. apply getb_set_nth. auto. }
+  assert (HD0nth : forall j, nth j D0 0 = nth j (getb st dst) 0).
+  { intros j. unfold D0, expand. apply nth_app_repeat. }
+  assert (Hw1 : forall s j, getw st1 s j = nth j (getb st s) 0).
+  { intros s j. unfold getw. rewrite Hg1. destruct (Nat.eqb_spec dst s) as [<-|]; auto. }
+  assert (HW : forall j, srcw st1 sl j = map (fun s => nth j (getb st s) 0) srcs).
+  { intros j. unfold srcw, sl. rewrite map_map. apply map_ext. intros s. simpl.
+    destruct (Nat.leb_spec (length (getb st s)) j) as [H|H]; [|apply Hw1].
+    rewrite nth_overflow by auto. reflexivity. }
+  assert (Hlens : forall s, In s srcs -> (length (getb st s) <= len)%nat).
+  { intros s Hs. unfold len. apply max_fold_ge. unfold sl. rewrite map_map. simpl.
+    apply in_map_iff. exists s. auto. }
+  assert (HWz : forall j, (len <= j)%nat -> f (map (fun s => nth j (getb st s) 0) srcs) = 0).
+  { intros j Hj. apply Hfz. apply Forall_forall. intros w Hw. apply in_map_iff in Hw.
+    destruct Hw as [s [<- Hs]]. apply nth_overflow. specialize (Hlens s Hs). lia. }
+  assert (HWlt : forall j, f (map (fun s => nth j (getb st s) 0) srcs) < 2 ^ 64).
+  { intros j. apply Hflt. apply Forall_forall. intros w Hw. apply in_map_iff in Hw.
+    destruct Hw as [s [<- Hs]]. apply wfb_nth. apply Hwfb. }
+  apply opn_loop_spec in Hloop; [|lia|rewrite Hg1, Nat.eqb_refl; lia|lia].
+  destruct Hloop as [R1 [R2 [R3 [R4 [_ [R6 [R7 R8]]]]]]].
+  assert (Hd2 : forall j, nth j (getb st2 dst) 0
+                          = if Nat.ltb j len then f (map (fun s => nth j (getb st s) 0) srcs)
+                            else nth j (getb st dst) 0).
+  { intros j. change (nth j (getb st2 dst) 0) with (getw st2 dst j). rewrite R4, HW, Hw1.
+    destruct (Nat.leb_spec O j); [|lia]. reflexivity. }
+  assert (Hres : forall j, nth j (getb (set_nth st2 dst (firstn bound (getb st2 dst))) dst) 0
+                           = f (map (fun s => nth j (getb st s) 0) srcs)).
+  { intros j. rewrite getb_set_nth by lia. rewrite Nat.eqb_refl. rewrite nth_firstn_N, Hd2.
+    destruct (Nat.ltb_spec j bound) as [Hb|Hb].
+    - destruct (Nat.ltb_spec j len); [reflexivity|lia].
+    - destruct (Nat.ltb_spec j len) as [Hl|Hl].
+      + rewrite <- HW. symmetry. apply R7; lia.
+      + symmetry. apply HWz. lia. }
+  split; [rewrite set_nth_length; lia|]. split.
+  { intros b Hb. rewrite getb_set_nth by lia. destruct (Nat.eqb_spec dst b); [congruence|].
+    rewrite R2 by auto. rewrite Hg1. destruct (Nat.eqb_spec dst b); [congruence|reflexivity]. }
+  split; [exact Hres|]. split.
+  { apply wfb_of_nth. intros j. rewrite Hres. apply HWlt. }
+  rewrite orb_true_iff, R8, existsb_skipn_nz. split.
+  - intros [[H|[j [Hj H]]]|[j [Hj H]]]; [discriminate| |].
+    + exists j. rewrite Hres. rewrite Hw1, HW in H. congruence.
+    + exists j. rewrite Hres. rewrite Hd2 in H. destruct (Nat.ltb_spec j len); [lia|].
+      rewrite HWz by auto. congruence.
+  - intros [j H]. rewrite Hres in H. destruct (Nat.ltb_spec j len) as [Hl|Hl].
+    + left. right. exists j. split; [lia|]. rewrite Hw1, HW. congruence.
+    + right. exists j. split; [auto|]. rewrite Hd2. destruct (Nat.ltb_spec j len); [lia|].
+      rewrite HWz in H by auto. congruence.
+Qed.
+
+Lemma wfs_getb st b : wfs st -> wfb (getb st b).
+Proof.
+  intros Hwf. unfold getb. destruct (Nat.ltb_spec b (length st)) as [H|H].
+  - unfold wfs in Hwf. rewrite Forall_forall in Hwf. apply Hwf. apply nth_In. auto.
+  - rewrite nth_overflow by auto. constructor.
+Qed.
+
+Lemma wfs_of_getb st : (forall b, wfb (getb st b)) -> wfs st.
+Proof.
+  intros H. apply Forall_forall. intros bm Hin. apply In_nth with (d := []) in Hin.
+  destruct Hin as [b [_ <-]]. apply H.
+Qed.
+
+(* set-level meaning, every aliasing pattern; flag = true exactly when the destination's set changed *)
+Theorem opn_spec f fb dst srcs st st' r :
+  bitwise f fb -> wfs st -> (dst < length st)%nat ->
+  opn true f dst srcs st = (st', r) ->
+  wfs st' /\ length st' = length st /\
+  (forall b, b <> dst -> getb st' b = getb st b) /\
+  (forall n, wbit (getb st' dst) n = fb (map (fun s => wbit (getb st s) n) srcs)) /\
+  (r = true <-> changed (getb st' dst) (getb st dst)).
+Proof.
+  intros [Hlt Hz Hbits] Hwf Hdst Hop.
+  destruct (opn_words f dst srcs st st' r Hlt Hz Hwf Hdst Hop) as [R1 [R2 [R3 [R4 R5]]]].
+  split; [|split; [exact R1|split; [exact R2|split]]].
+  - apply wfs_of_getb. intros b. destruct (Nat.eq_dec b dst) as [->|Hne]; [exact R4|].
+    rewrite R2 by auto. apply wfs_getb. auto.
+  - intros n. unfold wbit at 1. rewrite R3. rewrite Hbits.
+    + rewrite map_map. reflexivity.
+    + apply Forall_forall. intros w Hw. apply in_map_iff in Hw. destruct Hw as [s [<- _]].
+      apply wfb_nth. apply wfs_getb. auto.
+    + apply mod64_lt.
+  - rewrite R5. symmetry. apply changed_words; auto. apply wfs_getb. auto.
+Qed.
+
+(* the five instances *)
+Definition fb_and (bs : list bool) : bool := match bs with [a; b] => a && b | _ => false end.
+Definition fb_and_compl (bs : list bool) : bool := match bs with [a; b] => a && negb b | _ => false end.
+Definition fb_ior (bs : list bool) : bool := match bs with [a; b] => a || b | _ => false end.
+Definition fb_ior_and (bs : list bool) : bool := match bs with [a; b; c] => a || (b && c) | _ => false end.
+Definition fb_ior_and_compl (bs : list bool) : bool := match bs with [a; b; c] => a || (b && negb c) | _ => false end.
+
+Ltac lists3 ws := destruct ws as [|? [|? [|? [|? ?]]]].
+Ltac inv_forall :=
+  repeat match goal with H : Forall _ (_ :: _) |- _ => inversion H; subst; clear H end.
+Ltac lt64 := apply bits_lt_pow2; intros ? ?;
+  rewrite ?N.lor_spec, ?N.land_spec, ?not64_spec;
+  repeat match goal with H : ?w < 2 ^ 64 |- _ => rewrite (lt_pow2_bits w 64 H) by assumption end;
+  rewrite ?andb_false_r; reflexivity.
+
+Lemma bw_and : bitwise f_and fb_and.
+Proof.
+  split.
+  - intros ws H. lists3 ws; cbn [f_and f_and_compl f_ior f_ior_and f_ior_and_compl fb_and fb_and_compl fb_ior fb_ior_and fb_ior_and_compl map]; try reflexivity. inv_forall. lt64.
+  - intros ws H. lists3 ws; cbn [f_and f_and_compl f_ior f_ior_and f_ior_and_compl fb_and fb_and_compl fb_ior fb_ior_and fb_ior_and_compl map]; try reflexivity. inv_forall. reflexivity.
+  - intros ws j H Hj. lists3 ws; cbn [f_and f_and_compl f_ior f_ior_and f_ior_and_compl fb_and fb_and_compl fb_ior fb_ior_and fb_ior_and_compl map]; try apply N.bits_0. apply N.land_spec.
+Qed.
+
+Lemma bw_and_compl : bitwise f_and_compl fb_and_compl.
+Proof.
+  split.
+  - intros ws H. lists3 ws; cbn [f_and f_and_compl f_ior f_ior_and f_ior_and_compl fb_and fb_and_compl fb_ior fb_ior_and fb_ior_and_compl map]; try reflexivity. inv_forall. lt64.
+  - intros ws H. lists3 ws; cbn [f_and f_and_compl f_ior f_ior_and f_ior_and_compl fb_and fb_and_compl fb_ior fb_ior_and fb_ior_and_compl map]; try reflexivity. inv_forall. reflexivity.
+  - intros ws j H Hj. lists3 ws; cbn [f_and f_and_compl f_ior f_ior_and f_ior_and_compl fb_and fb_and_compl fb_ior fb_ior_and fb_ior_and_compl map]; try apply N.bits_0. rewrite N.land_spec, not64_spec.
+    destruct (N.ltb_spec j 64); [reflexivity|lia].
+Qed.
+
+Lemma bw_ior : bitwise f_ior fb_ior.
+Proof.
+  split.
+  - intros ws H. lists3 ws; cbn [f_and f_and_compl f_ior f_ior_and f_ior_and_compl fb_and fb_and_compl fb_ior fb_ior_and fb_ior_and_compl map]; try reflexivity. inv_forall. lt64.
+  - intros ws H. lists3 ws; cbn [f_and f_and_compl f_ior f_ior_and f_ior_and_compl fb_and fb_and_compl fb_ior fb_ior_and fb_ior_and_compl map]; try reflexivity. inv_forall. reflexivity.
+  - intros ws j H Hj. lists3 ws; cbn [f_and f_and_compl f_ior f_ior_and f_ior_and_compl fb_and fb_and_compl fb_ior fb_ior_and fb_ior_and_compl map]; try apply N.bits_0. apply N.lor_spec.
+Qed.
+
+Lemma bw_ior_and : bitwise f_ior_and fb_ior_and.
+Proof.
+  split.
+  - intros ws H. lists3 ws; cbn [f_and f_and_compl f_ior f_ior_and f_ior_and_compl fb_and fb_and_compl fb_ior fb_ior_and fb_ior_and_compl map]; try reflexivity. inv_forall. lt64.
+  - intros ws H. lists3 ws; cbn [f_and f_and_compl f_ior f_ior_and f_ior_and_compl fb_and fb_and_compl fb_ior fb_ior_and fb_ior_and_compl map]; try reflexivity. inv_forall. reflexivity.
+  - intros ws j H Hj. lists3 ws; cbn [f_and f_and_compl f_ior f_ior_and f_ior_and_compl fb_and fb_and_compl fb_ior fb_ior_and fb_ior_and_compl map]; try apply N.bits_0. rewrite N.lor_spec, N.land_spec. reflexivity.
+Qed.
+
+Lemma bw_ior_and_compl : bitwise f_ior_and_compl fb_ior_and_compl.
+Proof.
+  split.
+  - intros ws H. lists3 ws; cbn [f_and f_and_compl f_ior f_ior_and f_ior_and_compl fb_and fb_and_compl fb_ior fb_ior_and fb_ior_and_compl map]; try reflexivity. inv_forall. lt64.
+  - intros ws H. lists3 ws; cbn [f_and f_and_compl f_ior f_ior_and f_ior_and_compl fb_and fb_and_compl fb_ior fb_ior_and fb_ior_and_compl map]; try reflexivity. inv_forall. reflexivity.
+  - intros ws j H Hj. lists3 ws; cbn [f_and f_and_compl f_ior f_ior_and f_ior_and_compl fb_and fb_and_compl fb_ior fb_ior_and fb_ior_and_compl map]; try apply N.bits_0.
+    rewrite N.lor_spec, N.land_spec, not64_spec. destruct (N.ltb_spec j 64); [reflexivity|lia].
+Qed.
+
+(* before fixes/C19-1.patch ([scan = false]) the flag statement was false: the history witness *)
+Example opn_unfixed_flag_refuted :
+  exists st st', opn false f_ior 1 [0; 0]%nat st = (st', false) /\ changed (getb st' 1) (getb st 1).
+Proof.
+  exists [[]; [2 ^ 58]], [[]; []]. split; [reflexivity|].
+  exists 58. unfold wbit, getb. simpl. discriminate.
+Qed.
+
+(* ------------------------------------------------------------------ iterator *)
+Lemma low_scan_spec p : forall k, exists c,
+  low_scan p k = k + c /\ N.testbit (N.pos p) c = true /\ forall j, j < c -> N.testbit (N.pos p) j = false.
+Proof.
+  induction p as [p IH|p IH|]; intros k.
+  - exists 0. simpl. split; [lia|]. split; [reflexivity|]. intros j Hj. lia.
+  - destruct (IH (k + 1)) as [c [E [Ht Hl]]]. exists (N.succ c). simpl low_scan. split; [lia|].
+    change (N.pos p~0) with (2 * N.pos p). split.
+    + rewrite N.testbit_even_succ by lia. exact Ht.
+    + intros j Hj. destruct (N.eq_dec j 0) as [->|Hnz]; [apply N.testbit_even_0|].
+      replace j with (N.succ (N.pred j)) by lia. rewrite N.testbit_even_succ by lia. apply Hl. lia.
+  - exists 0. simpl. split; [lia|]. split; [reflexivity|]. intros j Hj. lia.
+Qed.
+
+Lemma iter_word_spec el nbit : el < 2 ^ 64 ->
+  match iter_word el nbit with
+  | Some b => exists c, b = nbit + c /\ nbit mod 64 + c < 64 /\ N.testbit el (nbit mod 64 + c) = true /\
+                        forall j, nbit mod 64 <= j < nbit mod 64 + c -> N.testbit el j = false
+  | None => forall j, nbit mod 64 <= j -> N.testbit el j = false
+  end.
+Proof.
+  intros Hel. unfold iter_word. destruct (N.shiftr el (nbit mod 64)) as [|p] eqn:E.
+  - intros j Hj. replace j with ((j - nbit mod 64) + nbit mod 64) by lia.
+    rewrite <- N.shiftr_spec', E. apply N.bits_0.
+  - destruct (low_scan_spec p nbit) as [c [E1 [Ht Hl]]]. exists c. split; [exact E1|].
+    rewrite <- E in Ht, Hl. rewrite N.shiftr_spec' in Ht.
+    assert (Hc : nbit mod 64 + c < 64).
+    { destruct (N.lt_ge_cases (nbit mod 64 + c) 64) as [|Hge]; auto.
+      rewrite (lt_pow2_bits el 64 Hel) in Ht by lia. discriminate. }
+    split; [exact Hc|]. split; [rewrite N.add_comm; exact Ht|].
+    intros j Hj. specialize (Hl (j - nbit mod 64) ltac:(lia)). rewrite N.shiftr_spec' in Hl.
+    replace (j - nbit mod 64 + nbit mod 64) with j in Hl by lia. exact Hl.
+Qed.
+
+Lemma wbit_lt bm n : wbit bm n = true -> n < 64 * N.of_nat (length bm).
+Proof.
+  intros H. apply wordix_lt. destruct (Nat.ltb_spec (wordix n) (length bm)); auto.
+  unfold wbit in H. rewrite nth_overflow in H by auto. rewrite N.bits_0 in H. discriminate.
+Qed.
+
+Lemma in_word curr m : 64 * curr <= m < 64 * (curr + 1) -> m / 64 = curr /\ m mod 64 = m - 64 * curr.
+Proof.
+  intros H. split.
+  - symmetry. apply (N.div_unique m 64 curr (m - 64 * curr)); lia.
+  - symmetry. apply (N.mod_unique m 64 curr (m - 64 * curr)); lia.
+Qed.
+
+Lemma skipn_cons_nth (bm : list N) k el r : skipn k bm = el :: r -> nth k bm 0 = el /\ skipn (S k) bm = r.
+Proof.
+  revert bm; induction k as [|k IH]; intros [|x bm] H; simpl in *; try discriminate.
+  - inversion H; auto.
+  - apply IH. exact H.
+Qed.
+
+Lemma iter_words_spec bm : wfb bm -> forall ws curr nbit,
+  ws = skipn (N.to_nat curr) bm -> nbit / 64 = curr ->
+  match iter_words ws curr nbit with
+  | (Some b, nb') => nb' = b + 1 /\ nbit <= b /\ wbit bm b = true /\ (forall m, nbit <= m < b -> wbit bm m = false)
+  | (None, _) => forall m, nbit <= m -> wbit bm m = false
+  end.
+Proof.
+  intros Hwf. induction ws as [|el r IH]; intros curr nbit Hws Hcurr.
+  - simpl. intros m Hm. unfold wbit.
+    assert (Hlen : (length bm <= N.to_nat curr)%nat).
+    { destruct (Nat.le_gt_cases (length bm) (N.to_nat curr)) as [|Hgt]; auto.
+      assert (Hl : length (skipn (N.to_nat curr) bm) = (length bm - N.to_nat curr)%nat) by apply skipn_length.
+      rewrite <- Hws in Hl. simpl in Hl. lia. }
+    rewrite nth_overflow; [apply N.bits_0|]. unfold wordix.
+    assert (curr <= m / 64) by (rewrite <- Hcurr; apply N.div_le_mono; lia). lia.
+  - symmetry in Hws. destruct (skipn_cons_nth bm _ el r Hws) as [Hel Hr].
+    assert (Hel64 : el < 2 ^ 64) by (rewrite <- Hel; apply wfb_nth; auto).
+    pose proof (N.div_mod nbit 64 ltac:(lia)) as Hdm. rewrite Hcurr in Hdm.
+    pose proof (mod64_lt nbit) as Hsh.
+    remember (nbit mod 64) as sh eqn:Esh.
+    assert (Hword : forall m, 64 * curr <= m < 64 * (curr + 1) -> wbit bm m = N.testbit el (m - 64 * curr)).
+    { intros m Hm. destruct (in_word curr m Hm) as [E1 E2]. unfold wbit, wordix. rewrite E1, E2, Hel. reflexivity. }
+    assert (Hrec : (if el =? 0 then None else iter_word el nbit) = None ->
+                   forall m, nbit <= m < 64 * (curr + 1) -> wbit bm m = false).
+    { intros Hnone m Hm. rewrite Hword by lia.
+      destruct (N.eqb_spec el 0) as [->|Hnz]; [apply N.bits_0|].
+      pose proof (iter_word_spec el nbit Hel64) as Hs. rewrite Hnone, <- Esh in Hs. apply Hs. lia. }
+    cbn [iter_words].
+    destruct (if el =? 0 then None else iter_word el nbit) as [b|] eqn:Hw.
+    + destruct (N.eqb_spec el 0); [discriminate|].
+      pose proof (iter_word_spec el nbit Hel64) as Hs. rewrite Hw, <- Esh in Hs.
+      destruct Hs as [c [Eb [Hc [Ht Hl]]]].
+      split; [reflexivity|]. split; [lia|]. split.
+      * rewrite Hword by lia. replace (b - 64 * curr) with (sh + c) by lia. exact Ht.
+      * intros m Hm. rewrite Hword by lia. apply Hl. lia.
+    + specialize (IH (curr + 1) ((curr + 1) * 64)).
+      assert (E1 : r = skipn (N.to_nat (curr + 1)) bm).
+      { rewrite <- Hr. f_equal. lia. }
+      assert (E2 : (curr + 1) * 64 / 64 = curr + 1) by (apply N.div_mul; lia).
+      specialize (IH E1 E2).
+      destruct (iter_words r (curr + 1) ((curr + 1) * 64)) as [[b|] nb'].
+      * destruct IH as [I1 [I2 [I3 I4]]]. split; [exact I1|]. split; [lia|]. split; [exact I3|].
+        intros m Hm. destruct (N.lt_ge_cases m (64 * (curr + 1))) as [Hlo|Hhi].
+        -- apply Hrec; auto. lia.
+        -- apply I4. lia.
+      * intros m Hm. destruct (N.lt_ge_cases m (64 * (curr + 1))) as [Hlo|Hhi].
+        -- apply Hrec; auto.
+        -- apply IH. lia.
+Qed.
+
+Theorem iterator_next_spec bm nbit : wfb bm ->
+  match iterator_next bm nbit with
+  | (Some b, nb') => nb' = b + 1 /\ nbit <= b /\ wbit bm b = true /\ (forall m, nbit <= m < b -> wbit bm m = false)
+  | (None, _) => forall m, nbit <= m -> wbit bm m = false
+  end.
+Proof. intros Hwf. unfold iterator_next. apply iter_words_spec; auto. Qed.
+
+Lemma iter_all_spec bm : wfb bm -> forall fuel nbit,
+  nbit <= 64 * N.of_nat (length bm) -> 64 * N.of_nat (length bm) + 1 <= N.of_nat fuel + nbit ->
+  exists l, iter_all fuel bm nbit = Some l /\ StronglySorted N.lt l /\
+            (forall n, In n l <-> nbit <= n /\ wbit bm n = true).
+Proof.
+  intros Hwf. induction fuel as [|f IH]; intros nbit H1 H2; [lia|].
+  cbn [iter_all]. pose proof (iterator_next_spec bm nbit Hwf) as Hs.
+  destruct (iterator_next bm nbit) as [[b|] nb'].
+  - destruct Hs as [-> [S1 [S2 S3]]]. pose proof (wbit_lt bm b S2) as Hb.
+    destruct (IH (b + 1)) as [l [E [Hsorted Hin]]]; [lia|lia|].
+    rewrite E. exists (b :: l). split; [reflexivity|]. split.
+    + constructor; auto. apply Forall_forall. intros x Hx. apply Hin in Hx. lia.
+    + intros n. simpl. rewrite Hin. split.
+      * intros [<-|[Hn1 Hn2]]; split; auto; lia.
+      * intros [Hn1 Hn2]. destruct (N.eq_dec b n) as [|Hne]; auto. right. split; auto.
+        destruct (N.lt_ge_cases n b) as [Hlt|Hge]; [|lia].
+        rewrite S3 in Hn2 by lia. discriminate.
+  - exists []. split; [reflexivity|]. split; [constructor|]. intros n. simpl. split; [tauto|].
+    intros [Hn1 Hn2]. rewrite Hs in Hn2 by auto. discriminate.
+Qed.
+
+(* FOREACH_BITMAP_BIT terminates and delivers exactly the members, strictly increasing *)
+Theorem foreach_spec bm : wfb bm ->
+  exists l, foreach bm = Some l /\ StronglySorted N.lt l /\ (forall n, In n l <-> bit_p bm n = true).
+Proof.
+  intros Hwf. unfold foreach, foreach_fuel.
+  destruct (iter_all_spec bm Hwf (64 * length bm + 1) 0) as [l [E [Hs Hin]]]; [lia|lia|].
+  exists l. split; [exact E|]. split; [exact Hs|]. intros n. rewrite Hin, bit_p_spec. split; [tauto|].
+  intros H. split; [lia|exact H].
+Qed.
+
+(* ------------------------------------------------------------------ scripts: every reachable store is well-formed,
+   and no operation with valid ids gets stuck (out of fuel) *)
+Lemma binit_wf n : wfs (bst (binit n)).
+Proof. simpl. apply Forall_forall. intros bm H. apply repeat_spec in H. subst. constructor. Qed.
+
+Lemma wfs_set_nth st b bm : wfs st -> wfb bm -> wfs (set_nth st b bm).
+Proof.
+  unfold wfs. revert b; induction st as [|x st IH]; intros [|b] H Hb; simpl; auto.
+  - inversion H; subst. constructor; auto.
+  - inversion H; subst. constructor; auto.
+Qed.
+
+Lemma valid_cons st b ids : valid st (b :: ids) = true -> (b < length st)%nat /\ valid st ids = true.
+Proof.
+  unfold valid. simpl. intros H. apply andb_true_iff in H. destruct H as [H1 H2].
+  apply Nat.ltb_lt in H1. auto.
+Qed.
+
+Theorem bstep_wf s o s' out : wfs (bst s) -> bstep true s o = Some (s', out) -> wfs (bst s').
+Proof.
+  intros Hwf H. destruct o; unfold bstep in H; cbv beta zeta in H;
+    repeat match type of H with
+           | (if valid ?st ?ids then _ else _) = _ =>
+             let V := fresh "V" in destruct (valid st ids) eqn:V; [|discriminate]
+           end.
+  all: try (inversion H; subst; exact Hwf).
+  - (* set *) destruct (set_bit_p (getb (bst s) b) n) as [bm r] eqn:E. inversion H; subst. simpl.
+    apply wfs_set_nth; auto. eapply set_bit_p_spec; eauto. apply wfs_getb; auto.
+  - (* clr *) destruct (clear_bit_p (getb (bst s) b) n) as [bm r] eqn:E. inversion H; subst. simpl.
+    apply wfs_set_nth; auto. eapply clear_bit_p_spec; eauto. apply wfs_getb; auto.
+  - (* setr *) destruct (set_or_clear_bit_range_p_spec (getb (bst s) b) n len true (wfs_getb _ b Hwf))
+      as [bm' [r [E [Hw _]]]]. rewrite E in H. inversion H; subst. simpl. apply wfs_set_nth; auto.
+  - (* clrr *) destruct (set_or_clear_bit_range_p_spec (getb (bst s) b) n len false (wfs_getb _ b Hwf))
+      as [bm' [r [E [Hw _]]]]. rewrite E in H. inversion H; subst. simpl. apply wfs_set_nth; auto.
+  - (* clear *) inversion H; subst. simpl. apply wfs_set_nth; auto. constructor.
+  - (* expand *) inversion H; subst. simpl. apply wfs_set_nth; auto. apply wfb_expand. apply wfs_getb; auto.
+  - (* copy *) inversion H; subst. simpl. apply wfs_set_nth; auto. rewrite copy_spec. apply wfs_getb; auto.
+  - destruct (opn true f_and d [a; b] (bst s)) as [st' r] eqn:E. inversion H; subst. simpl.
+    apply valid_cons in V. eapply (opn_spec _ _ _ _ _ _ _ bw_and Hwf (proj1 V) E).
+  - destruct (opn true f_and_compl d [a; b] (bst s)) as [st' r] eqn:E. inversion H; subst. simpl.
+    apply valid_cons in V. eapply (opn_spec _ _ _ _ _ _ _ bw_and_compl Hwf (proj1 V) E).
+  - destruct (opn true f_ior d [a; b] (bst s)) as [st' r] eqn:E. inversion H; subst. simpl.
+    apply valid_cons in V. eapply (opn_spec _ _ _ _ _ _ _ bw_ior Hwf (proj1 V) E).
+  - destruct (opn true f_ior_and d [a; b; c] (bst s)) as [st' r] eqn:E. inversion H; subst. simpl.
+    apply valid_cons in V. eapply (opn_spec _ _ _ _ _ _ _ bw_ior_and Hwf (proj1 V) E).
+  - destruct (opn true f_ior_and_compl d [a; b; c] (bst s)) as [st' r] eqn:E. inversion H; subst. simpl.
+    apply valid_cons in V. eapply (opn_spec _ _ _ _ _ _ _ bw_ior_and_compl Hwf (proj1 V) E).
+  - (* iter *) destruct (foreach (getb (bst s) b)); inversion H; subst; exact Hwf.
+  - (* inext *) destruct (iterator_next (getb (bst s) (bit_bm s)) (bit_nbit s)). inversion H; subst. exact Hwf.
+Qed.
+
+Definition bop_ids (s : bstate) (o : bop) : list nat :=
+  match o with
+  | BBit b _ | BSet b _ | BClr b _ | BSetR b _ _ | BClrR b _ _ | BClear b | BExpand b _ | BEmpty b
+  | BCount b | BMin b | BMax b | BIter b | BIterInit b => [b]
+  | BCopy a b | BEq a b | BIsect a b => [a; b]
+  | BAnd d a b | BAndC d a b | BIor d a b => [d; a; b]
+  | BIorAnd d a b c | BIorAndC d a b c => [d; a; b; c]
+  | BIterNext => [bit_bm s]
+  end.
+
+Theorem bstep_total s o : wfs (bst s) -> valid (bst s) (bop_ids s o) = true -> bstep true s o <> None.
+Proof.
+  intros Hwf V. destruct o; unfold bstep, bop_ids in *; cbv beta zeta; rewrite V; try discriminate.
+  all: try match goal with |- (let '(_, _) := ?x in _) <> None => destruct x; discriminate end.
+  - destruct (set_or_clear_bit_range_p_spec (getb (bst s) b) n len true (wfs_getb _ b Hwf)) as [bm' [r [E _]]].
+    rewrite E. discriminate.
+  - destruct (set_or_clear_bit_range_p_spec (getb (bst s) b) n len false (wfs_getb _ b Hwf)) as [bm' [r [E _]]].
+    rewrite E. discriminate.
+  - destruct (foreach_spec (getb (bst s) b) (wfs_getb _ b Hwf)) as [l [E _]]. rewrite E. discriminate.
+Qed.
+
+(* ------------------------------------------------------------------ the statements used in Properties_C19.v *)
+Theorem op2_spec : forall f fb,
+  In (f, fb) [(f_and, fb_and); (f_and_compl, fb_and_compl); (f_ior, fb_ior)] ->
+  forall st dst s1 s2 st' r, wfs st -> (dst < length st)%nat ->
+  opn true f dst [s1; s2] st = (st', r) ->
+  wfs st' /\ length st' = length st /\ (forall b, b <> dst -> getb st' b = getb st b) /\
+  (forall n, bit_p (getb st' dst) n = fb [bit_p (getb st s1) n; bit_p (getb st s2) n]) /\
+  (r = true <-> changed (getb st' dst) (getb st dst)).
+Proof.
+  intros f fb Hin st dst s1 s2 st' r Hwf Hdst Hop.
+  assert (Hbw : bitwise f fb).
+  { simpl in Hin. destruct Hin as [E|[E|[E|[]]]]; inversion E; subst;
+      [apply bw_and|apply bw_and_compl|apply bw_ior]. }
+  destruct (opn_spec f fb dst [s1; s2] st st' r Hbw Hwf Hdst Hop) as [R1 [R2 [R3 [R4 R5]]]].
+  repeat split; auto; try apply R5.
+  intros n. rewrite !bit_p_spec. apply R4.
+Qed.
+
+Theorem op3_spec : forall f fb,
+  In (f, fb) [(f_ior_and, fb_ior_and); (f_ior_and_compl, fb_ior_and_compl)] ->
+  forall st dst s1 s2 s3 st' r, wfs st -> (dst < length st)%nat ->
+  opn true f dst [s1; s2; s3] st = (st', r) ->
+  wfs st' /\ length st' = length st /\ (forall b, b <> dst -> getb st' b = getb st b) /\
+  (forall n, bit_p (getb st' dst) n = fb [bit_p (getb st s1) n; bit_p (getb st s2) n; bit_p (getb st s3) n]) /\
+  (r = true <-> changed (getb st' dst) (getb st dst)).
+Proof.
+  intros f fb Hin st dst s1 s2 s3 st' r Hwf Hdst Hop.
+  assert (Hbw : bitwise f fb).
+  { simpl in Hin. destruct Hin as [E|[E|[]]]; inversion E; subst; [apply bw_ior_and|apply bw_ior_and_compl]. }
+  destruct (opn_spec f fb dst [s1; s2; s3] st st' r Hbw Hwf Hdst Hop) as [R1 [R2 [R3 [R4 R5]]]].
+  repeat split; auto; try apply R5.
+  intros n. rewrite !bit_p_spec. apply R4.
+Qed.
+
+(* non-vacuity: a store with aliased operands, a bitmap with a trailing zero word *)
+Example bitmap_nonvacuous :
+  let st := [[5; 0; 2 ^ 63]; [3]; [0; 1]; []] in
+  wfs st /\ opn true f_and_compl 0 [0; 1]%nat st = ([[4; 0; 2 ^ 63]; [3]; [0; 1]; []], true)
+  /\ opn true f_ior 1 [1; 1]%nat st = (st, false)
+  /\ opn true f_ior_and 0 [3; 1; 1]%nat st = ([[3]; [3]; [0; 1]; []], true)
+  /\ foreach [5; 0; 2 ^ 63] = Some [0; 2; 191].
+Proof.
+  cbv zeta. split; [|vm_compute; auto].
+  repeat constructor.
+Qed.
